@@ -91,11 +91,18 @@ def _run_tlc(ctx, module, cfg, workers, env=None, extra=(), timeout=600, deque=F
     cmd = ["timeout", str(timeout), "java", "-XX:+UseParallelGC"]
     if xss:
         cmd.append("-Xss%s" % xss)
+    covdir = os.environ.get("VERIF_TLC_COVERAGE")      # bin/covaudit: per-expression evaluation counts of trace validators
+    if covdir and module.startswith("Trace_"):
+        extra = list(extra) + ["-coverage", "1"]
     cmd += jopts + ["-cp", TLA_CP, "tlc2.TLC", "-workers", str(workers), "-metadir", md,
                     "-config", cfg, "-nowarning"] + list(extra) + [module]
     t = time.time()
     p = subprocess.run(cmd, cwd=ctx.spec, env=e, stdout=subprocess.PIPE, stderr=subprocess.STDOUT, text=True)
     shutil.rmtree(md, True)
+    if covdir and module.startswith("Trace_"):
+        os.makedirs(covdir, exist_ok=True)
+        with open(os.path.join(covdir, "%s-%s-%d-%d.cov" % (ctx.pid, module[:-4], os.getpid(), ctx._mc_n)), "w") as f:
+            f.write(p.stdout)
     return p.returncode, p.stdout, time.time() - t
 
 
